@@ -876,6 +876,27 @@ pub fn units() -> Vec<Unit> {
             Fn("Session::handle_downlink_macs"),
         ],
     },
+    // ---- builder T (tie A for `channel_mask_update` of the channel plans)
+    // C11 / C08: what a LinkADRReq's ChMaskCntl / ChMask does to the working copy of the mask, for the fixed plans
+    // (US915 / AU915: `FixedChannelPlan::channel_mask_update` with its helper `set_125k_channels`) and the dynamic
+    // plans (`DynamicChannelPlan::channel_mask_update`).  Neither method reads a field of the plan, so the plans are
+    // records without modelled fields.  The bit operations are those of `Gen.ChannelMaskFn` (regenerated from
+    // types.rs), reused — not emitted again.  Translated for real: the range pattern `0..=3`, the `for i in 0..8`
+    // loops over `set_bank` (`Rt.forRangeM`), `blocks & (1 << i) != 0`, the early `return None`.
+    Unit {
+        module: "Gen.PlanMaskFn",
+        file: "lorawan-device/src/region/fixed_channel_plans/mod.rs",
+        more_files: vec!["lorawan-device/src/region/dynamic_channel_plans/mod.rs", "lorawan-encoding/src/types.rs"],
+        imports: vec!["LoraVerif.Gen.ChannelMaskFn"],
+        items: vec![
+            ExternUnit("Gen.ChannelMaskFn"),
+            StructPartial("FixedChannelPlan", &[]),
+            StructPartial("DynamicChannelPlan", &[]),
+            Fn("FixedChannelPlan::set_125k_channels"),
+            TraitFn("RegionHandler", "FixedChannelPlan", "channel_mask_update"),
+            TraitFn("RegionHandler", "DynamicChannelPlan", "channel_mask_update"),
+        ],
+    },
     ]
 }
 
